@@ -4,8 +4,9 @@
    are in the second half of this file once Lemmas/Calendar is built.)
 -/
 import SqlDt.Lemmas.Div
+import SqlDt.Lemmas.Calendar
 namespace SqlDt.C01
-open SqlDt Gen
+open SqlDt Gen Spec
 
 /-- A raw day number is accepted exactly when it lies in 0001-01-01..9999-12-31 (for every i32). -/
 theorem tryFromDays_spec (k : Int) :
@@ -82,6 +83,80 @@ theorem isLeapYear_spec (y : Int) (hy : 0 ≤ y) :
   unfold isLeapYear
   rw [rrem_nonneg_eq hy, rrem_nonneg_eq hy, rrem_nonneg_eq hy]
   simp
+
+/-! ## The bijection with the proleptic Gregorian calendar (Spec/Calendar: defined by its successor rule) -/
+
+/-- ROUND TRIP 1: every in-range day number extracts to a real calendar date of years 1..9999 and converts back to
+    the same number. -/
+theorem extract_roundtrip (j : Int) (hj : isValidDate j) :
+    ValidYMD (Date.extract j).1 (Date.extract j).2.1 (Date.extract j).2.2 ∧
+    Date.tryFromYmd (Date.extract j).1 (Date.extract j).2.1 (Date.extract j).2.2 = .ok j := by
+  obtain ⟨hv, hb⟩ := Lemmas.extract_roundtrip j hj
+  refine ⟨hv, ?_⟩
+  obtain ⟨y1, y9, m1, m12, d1, dd⟩ := hv
+  rw [tryFromYmd_classify, ← UNIX_EPOCH_JULIAN_eq]
+  rw [Lemmas.daysOfMonth_eq _ _ (by omega) ⟨m1, m12⟩]
+  have d31 : (Date.extract j).2.2 ≤ 31 := by
+    unfold dim at dd; split at dd
+    · split at dd <;> omega
+    · split at dd <;> omega
+  have c1 : ¬ ((Date.extract j).1 < 1 ∨ (Date.extract j).1 > 9999) := by omega
+  have c2 : ¬ ((Date.extract j).2.1 < 1 ∨ (Date.extract j).2.1 > 12) := by omega
+  have c3 : ¬ ((Date.extract j).2.2 < 1 ∨ (Date.extract j).2.2 > 31) := by omega
+  have c4 : ¬ ((Date.extract j).2.2 > dim (Date.extract j).1 (Date.extract j).2.1) := by omega
+  rw [if_neg c1, if_neg c2, if_neg c3, if_neg c4]
+  exact congrArg _ hb
+
+/-- ROUND TRIP 2: every real date of years 1..9999 is accepted, its day number is in range and extracts back to it;
+    and the day number is the calendar's ordinal `dayNumber`. -/
+theorem tryFromYmd_roundtrip (y m d : Int) (h : ValidYMD y m d) :
+    Date.tryFromYmd y m d = .ok (dayNumber y m d) ∧ isValidDate (dayNumber y m d) ∧
+    Date.extract (dayNumber y m d) = (y, m, d) := by
+  obtain ⟨hv, he⟩ := Lemmas.extract_fromYmd y m d h
+  have hdn := Lemmas.fromYmd_eq_dayNumber y m d ⟨by have := h.1; omega, by have := h.2.1; omega⟩ ⟨h.2.2.1, h.2.2.2.1⟩
+  rw [hdn] at hv he
+  refine ⟨?_, hv, he⟩
+  obtain ⟨y1, y9, m1, m12, d1, dd⟩ := h
+  rw [tryFromYmd_classify, ← UNIX_EPOCH_JULIAN_eq, Lemmas.daysOfMonth_eq _ _ (by omega) ⟨m1, m12⟩]
+  have d31 : d ≤ 31 := by
+    unfold dim at dd; split at dd
+    · split at dd <;> omega
+    · split at dd <;> omega
+  have c1 : ¬ (y < 1 ∨ y > 9999) := by omega
+  have c2 : ¬ (m < 1 ∨ m > 12) := by omega
+  have c3 : ¬ (d < 1 ∨ d > 31) := by omega
+  have c4 : ¬ (d > dim y m) := by omega
+  rw [if_neg c1, if_neg c2, if_neg c3, if_neg c4]
+  exact congrArg _ hdn
+
+/-- A triple is accepted EXACTLY when it names a real date of years 1..9999 (all i32 years, u32 months and days). -/
+theorem tryFromYmd_ok_iff (y m d : Int) (hm : 0 ≤ m) (hd : 0 ≤ d) :
+    (∃ v, Date.tryFromYmd y m d = .ok v) ↔ ValidYMD y m d := by
+  constructor
+  · rintro ⟨v, hv⟩
+    rw [tryFromYmd_classify] at hv
+    split at hv; · cases hv
+    split at hv; · cases hv
+    split at hv; · cases hv
+    split at hv; · cases hv
+    rename_i c1 c2 c3 c4
+    rw [Lemmas.daysOfMonth_eq _ _ (by omega) (by omega)] at c4
+    exact ⟨by omega, by omega, by omega, by omega, by omega, by omega⟩
+  · intro h; exact ⟨_, (tryFromYmd_roundtrip y m d h).1⟩
+
+/-- Consecutive day numbers are consecutive Gregorian dates: the calendar is *defined* by `Spec.nextDay`
+    (day + 1 within the month, else first of the next month, else 1 January of the next year; month lengths 28/29/30/31
+    with leap years every 4 years except century years not divisible by 400). -/
+theorem extract_succ (j : Int) (hj : isValidDate j) (hj1 : isValidDate (j + 1)) :
+    Date.extract (j + 1) = nextDay (Date.extract j) := Lemmas.extract_succ j hj hj1
+
+theorem extract_min : Date.extract (-719162) = (1, 1, 1) := Lemmas.extract_min
+theorem extract_max : Date.extract 2932896 = (9999, 12, 31) := Lemmas.extract_max
+
+/-- Accepted dates order the same way as their (year, month, day) triples. -/
+theorem order_iff_lex (y m d y' m' d' : Int) (h : ValidYMD y m d) (h' : ValidYMD y' m' d') :
+    dayNumber y m d < dayNumber y' m' d' ↔ lexLt (y, m, d) (y', m', d') :=
+  Lemmas.dayNumber_lt_iff y m d y' m' d' h.2.2 h'.2.2
 
 example : Date.tryFromYmd 2021 2 29 = .error .InvalidDate ∧ Date.tryFromYmd 2020 2 29 = .ok 18321 ∧
     Date.tryFromYmd 0 1 1 = .error .DateOutOfRange ∧ Date.tryFromYmd 1 13 1 = .error .InvalidMonth ∧
